@@ -23,5 +23,5 @@ CHECK = {
             "reference LEB128 splitter in harness/model/framing.go is correct (it is itself exercised against the code's encoder)",
             "non-minimal varints (e.g. 80 00) are neither required nor forbidden by the statement; the check accepts both verdicts for them",
         ],
-        "required_classes": {"quick": ["malformed:mframing: truncated", "malformed:mframing: varint overflows 32 bits", "v1-exact", "empty+>=128", "list-longer-than-64-items", "malformed-behind-64-or-more-good-items", "other-list-joined-in-between"]},
+        "required_classes": {"quick": ["malformed:mframing: truncated", "malformed:mframing: varint overflows 32 bits", "v1-exact", "empty+>=128", "list-longer-than-64-items", "malformed-behind-64-or-more-good-items", "other-list-joined-in-between", "stream-as-body-of-an-accepted-offer"]},
     }
